@@ -48,6 +48,11 @@ def sub_of(base, tag):
 SUBNAMES = {"Node": "Leaf", "Array": "Image", "PointList": "Peaks", "PointListArray": "Grid", "Custom": "Bundle"}
 
 
+def uses_subclass(spec):
+    # (a nested plain Custom attribute cannot be read either: the base class has no reader hook of its own)
+    return bool(spec["sub"]) or any(a["sub"] or a["cls"] == "Custom" for a in spec["attrs"])
+
+
 def build_attr(a):
     cls = a["cls"]
     if cls == "Custom":
@@ -115,7 +120,17 @@ def run_impl(case):
                     g = dict(g["k"])["p"]
                 g = dict(g["k"])["c"]
                 body = sorted(([k, o] for k, o in g["k"] if not ("g" in o and o["g"].get("emd_group_type") in DATA)), key=lambda e: e[0])
-                obs.append({"save": mode, "r": {"ok": True}, "valid": why is None, "why": why, "cbody": body})
+                ob = {"save": mode, "r": {"ok": True}, "valid": why is None, "why": why, "cbody": body}
+                if not uses_subclass(case["custom"]):
+                    # the dictionary the reader hook gets from the REAL `_get_emd_attr_data` (all attribute classes built in)
+                    import h5py
+                    try:
+                        with common.quiet(), h5py.File(p, "r") as f:
+                            grp = f["r"]["p"]["c"] if case["under"] == "node" else f["r"]["c"]
+                            ob["attrkeys"] = sorted(emdfile.Custom._get_emd_attr_data(emdfile.Custom, grp).keys())
+                    except Exception as e:
+                        ob["attrkeys"] = alpha.exc_kind(e)
+                obs.append(ob)
                 raws.append(raw)
             else:
                 raws.append(None)
@@ -150,5 +165,7 @@ def run_model(drv, obs, raws):
             own = [e for e in o["cbody"] if e[0] == "metadatabundle"]
             cb = drv.ask({"op": "custombody", "own": own, "attrs": LAST["attrs"]})
             mo["cbody"] = sorted(cb["body"], key=lambda e: e[0]) if "body" in cb else cb
+            if "attrkeys" in o:
+                mo["attrkeys"] = sorted(cb.get("attrkeys", [])) if "attrkeys" in cb else cb
         out.append(mo)
     return out
